@@ -10,8 +10,9 @@ From Ygot Require Import Tree.KeyCodecProofs Tree.NodeStepProofs Tree.GnmiRt.
 
 (* ---------- keys of an ordered list ---------- *)
 
-(* AppendNew of a generated ordered map converts the key strings of the path with
-   ytypes.StringToType (KeyCodec.string_to_gotype: integers, string, boolean, enumeration /
+(* The guard asks for keys that survive ytypes.StringToType (until fix 7d0d94c2 the conversion
+   retrieveNodeOrderedList applied; now stringToKeyType, which agrees with it wherever it succeeds:
+   the guard is stronger than needed) (KeyCodec.string_to_gotype: integers, string, boolean, enumeration /
    identityref and single-type unions of those; no decimal64, binary, multi-type union): the
    string printed for key value v of a key leaf of type t is read back as v *)
 Definition okey_rtb (env : enum_env) (ko : key_oracle) (t : ytype) (v : scalar) : bool :=
